@@ -357,45 +357,90 @@ func RefMerge(prof, cert []MergeItem) []MergeItem {
 
 // ---------------------------------------------------------------- validate (C09)
 
-// RefValidate is the statement of C09. attrs == nil means "no attribute list".
-// subject is in written order (attribute type OIDs).
-func RefValidate(attrs []SubjAttr, hasList bool, allowOther bool, subject []string) bool {
+// RefValidate is the statement of C09. hasList=false means "no attribute
+// list". subject is in written order (attribute type OIDs).
+// definite=false marks the cases the statement leaves open: profile lists
+// that name the same attribute more than once, where "a non-optional profile
+// attribute is missing" can be read per type or per entry.
+func RefValidate(attrs []SubjAttr, hasList bool, allowOther bool, subject []string) (accept bool, definite bool) {
 	if !hasList {
-		return true
+		return true, true
 	}
 	oids := make([]string, len(attrs))
+	opt := make([]bool, len(attrs))
 	for i, a := range attrs {
 		o, ok := AttrOID(a.Attribute)
 		if !ok {
-			return false
+			return false, false
 		}
 		oids[i] = o
+		opt[i] = a.Optional != nil && *a.Optional
+	}
+	count := func(l []string, t string) int {
+		n := 0
+		for _, x := range l {
+			if x == t {
+				n++
+			}
+		}
+		return n
+	}
+	// required types that do not occur at all: missing under every reading
+	for i := range attrs {
+		if !opt[i] && count(subject, oids[i]) == 0 {
+			return false, true
+		}
 	}
 	if !allowOther {
+		// in-order subsequence of the profile list
 		j := 0
 		for _, s := range subject {
 			for j < len(oids) && oids[j] != s {
 				j++
 			}
 			if j >= len(oids) {
-				return false
+				return false, true
 			}
 			j++
 		}
+		// accepted for sure if the subject is the profile list with only optional entries deleted
+		var match func(i, j int) bool
+		match = func(i, j int) bool {
+			if j == len(subject) {
+				for ; i < len(oids); i++ {
+					if !opt[i] {
+						return false
+					}
+				}
+				return true
+			}
+			if i == len(oids) {
+				return false
+			}
+			if oids[i] == subject[j] && match(i+1, j+1) {
+				return true
+			}
+			return opt[i] && match(i+1, j)
+		}
+		if match(0, 0) {
+			return true, true
+		}
+		return true, false // subsequence, every required type present, but a repeated required entry is unmatched
 	}
-	for i, a := range attrs {
-		if a.Optional != nil && *a.Optional {
+	// allowOther: only missing required attributes reject
+	for i := range attrs {
+		if opt[i] {
 			continue
 		}
-		found := false
-		for _, s := range subject {
-			if s == oids[i] {
-				found = true
+		need := 0
+		for k := range attrs {
+			if !opt[k] && oids[k] == oids[i] {
+				need++
 			}
 		}
-		if !found {
-			return false
+		if count(subject, oids[i]) < need {
+			return true, false
 		}
 	}
-	return true
+	return true, true
 }
